@@ -103,6 +103,13 @@ def programs_for(lit):
             nested_envs += [dict(f=(x, second)), dict(f=[x, second]), dict(f=(x,)), dict(f=x)]
         second_src = '"z"' if isinstance(lit.value, str) else "5"
         yield "nested-tuple-member", op, f"def m {{ if f {op} (({src}, {second_src}), (1, 2)) {T} else {F} }}", nested_envs
+    if isinstance(lit.value, str):
+        # a tuple of (key, value) pairs, three levels deep: nothing in there is anything but data
+        pairs_envs = []
+        for x in ins:
+            pairs_envs += [dict(f=((x, "gold"), ("region", "emea"))), dict(f=((x, "gold"),)), dict(f=(x, "gold")), dict(f="gold"), dict(f=x)]
+        yield "pair-tuple-member", "in", f'def m {{ if f in ((({src}, "gold"), ("region", "emea")), 7) {T} else {F} }}', pairs_envs
+        yield "pair-tuple-equality", "==", f'def m {{ if f == (({src}, "gold"), ("region", "emea")) {T} else {F} }}', pairs_envs
     yield "tuple-equality", "==", f"def m {{ if f == ({src}, 1) {T} else {F} }}", [dict(f=(x, 1)) for x in ins] + [dict(f=[lit.value, 1])]
 
 
